@@ -85,21 +85,21 @@ func (c24Slot) CheckEquivocation(uint64, uint64, *types.Header, types.AuthorityI
 }
 
 type c24Case struct {
-	ss                                 byte
-	c1, c2                             uint64
-	n                                  int
-	rb                                 byte
-	epoch, slot                        uint64
-	kind                               int
-	idx                                uint32
-	vsigner, vrfT, sealer, sealT       int
-	shape, eng, dup                    int
+	ss                           byte
+	c1, c2                       uint64
+	n                            int
+	rb                           byte
+	epoch, slot                  uint64
+	kind                         int
+	idx                          uint32
+	vsigner, vrfT, sealer, sealT int
+	shape, eng, dup              int
 	// manager cases: authority i holds key (koff+i)%8; the header hangs under a given parent
-	koff      int
-	hasParent bool
-	parent    common.Hash
-	number    uint
-	oAttach, oBelow, oVrf, oSeal       int
+	koff                         int
+	hasParent                    bool
+	parent                       common.Hash
+	number                       uint
+	oAttach, oBelow, oVrf, oSeal int
 }
 
 func (c *c24Case) line() string {
